@@ -1,5 +1,7 @@
 From Coq Require Import List Arith ZArith QArith Bool.
-From BZ Require Import Base.PyVal Model.Intersect Corr.Common.
+From Coq Require Import Qcanon.
+From BZ Require Import Base.PyVal Model.Intersect Model.Rounds Gen.PyGeometricIntersection Corr.Common.
+Definition MAX_ROUNDS : nat := MAX_INTERSECT_SUBDIVISIONS_nat.
 Import ListNotations.
 (* add_intersection: (s, t, existing pairs, resulting pairs) : exact *)
 Fixpoint pairs_eqb (l r : list (Q * Q)) : bool :=
@@ -10,3 +12,30 @@ Fixpoint pairs_eqb (l r : list (Q * Q)) : bool :=
   end.
 Definition chk_add_intersection (c : Q * Q * list (Q * Q) * list (Q * Q)) : bool :=
   let '(s, t, ints, out) := c in pairs_eqb (add_intersection s t ints) out.
+
+(* the candidate flow of all_intersections: (x1, y1, x2, y2, rounds, observed trace); per round
+   (candidate pairs (start1, end1, lin1, start2, end2, lin2), events (kind, the same six), pruned, verdict); exact comparison *)
+Definition pdesc := (Q * Q * bool * Q * Q * bool)%type.
+Definition pdesc_eqb (a b : pdesc) : bool :=
+  let '(a1, a2, a3, a4, a5, a6) := a in let '(b1, b2, b3, b4, b5, b6) := b in
+  Qeq_bool a1 b1 && Qeq_bool a2 b2 && Bool.eqb a3 b3 && Qeq_bool a4 b4 && Qeq_bool a5 b5 && Bool.eqb a6 b6.
+Definition desc_of (fs : cand * cand) : pdesc :=
+  (this (cstart (fst fs)), this (cend (fst fs)), lin (fst fs), this (cstart (snd fs)), this (cend (snd fs)), lin (snd fs)).
+Definition ev_desc (e : event) : nat * pdesc :=
+  match e with
+  | EvTangent f s => (0%nat, desc_of (f, s))
+  | EvLinearized f s => (1%nat, desc_of (f, s))
+  | EvError f s => (2%nat, desc_of (f, s))
+  end.
+Fixpoint list_eqb' {A B} (e : A -> B -> bool) (l : list A) (r : list B) : bool :=
+  match l, r with [], [] => true | a :: l', b :: r' => e a b && list_eqb' e l' r' | _, _ => false end.
+Definition verdict_nat (v : verdict) : nat := match v with Continue => 0 | Finished => 1 | TooMany => 2 end.
+Definition round_eqb (m : round_out) (o : list pdesc * list (nat * pdesc) * bool * nat) : bool :=
+  let '(oc, oe, op, ov) := o in
+  list_eqb' pdesc_eqb (map desc_of (cands_out m)) oc &&
+  list_eqb' (fun a b => Nat.eqb (fst a) (fst b) && pdesc_eqb (snd a) (snd b)) (map ev_desc (events_out m)) oe &&
+  Bool.eqb (pruned m) op && Nat.eqb (verdict_nat (verdict_out m)) ov.
+Definition chk_rounds (c : list Q * list Q * list Q * list Q * nat * bool * list (list pdesc * list (nat * pdesc) * bool * nat)) : bool :=
+  let '(x1, y1, x2, y2, n, oflag, obs) := c in
+  let '(mflag, mrounds) := all_rounds (Nat.min n MAX_ROUNDS) (initial x1 y1 x2 y2) in
+  Bool.eqb mflag oflag && list_eqb' round_eqb mrounds obs.
